@@ -140,6 +140,23 @@ theorem removePending_ne (lo : Int) : ∀ (pend : List (Int × Int)), pend.Pairw
         · exact absurd hlo hne'
         · exact ⟨p', hp', hlo⟩
 
+theorem mem_removePending_of_ne (lo : Int) : ∀ (pend : List (Int × Int)) (p : Int × Int), p ∈ pend → p.1 ≠ lo →
+    p ∈ removePending lo pend := by
+  intro pend
+  induction pend with
+  | nil => intro p hp; cases hp
+  | cons q qs ih =>
+    intro p hp hne
+    simp only [removePending]
+    split
+    · rename_i heq
+      rcases List.mem_cons.mp hp with rfl | hp
+      · exact absurd (by simpa using heq) hne
+      · exact hp
+    · rcases List.mem_cons.mp hp with rfl | hp
+      · exact List.mem_cons_self
+      · exact List.mem_cons_of_mem _ (ih p hp hne)
+
 /-- not covered ⟺ no resident line starts at the base -/
 theorem not_covered_of_no_base {c : Cache} (hw : DWf 64 16 c) (a : Int) (ha : 0 ≤ a) (h : ∀ l ∈ c.lines, l.lo ≠ base 64 a) :
     ∀ y ∈ c.lines, y.covers a = false := by
